@@ -93,4 +93,7 @@ CHECKS = {
     "C25": dict(engine=_A, technique="runtime monitoring: real UCSReplication/Discovery/Directory computations over the harness-owned transport; contract on _accept_replica evaluating the acceptance rule independently, replication_done reports and final placement oracle",
                 text="Held on the executions observed: every agent reported replication done within the step budget; reported hosts are distinct, never the owner, at most k, hold the replica and are listed by the directory; every _accept_replica call satisfied remaining capacity >= footprint + worst case over <= k-1 owners of the replicas held, incl. thousands of acceptances by agents already holding several replicas.",
                 note="Stub agents (name, AgentDef, computations() with footprints) in one process; symmetric routes, one global default route; k in 1..3."),
+    "C26": dict(engine=_C, technique="runtime monitoring: set-based oracle on the removal helpers for every departed subset of generated discovery states, and defining-formula oracle on the four repair constraints over every binary assignment of their scope",
+                text="Held on the executions observed: candidates are exactly the surviving replica holders of orphaned computations, fixed neighbours are hosted on surviving agents, candidate neighbours are the surviving replica holders; hosted == 0 iff exactly one candidate selected, capacity == 0 iff selected footprints fit, hosting and communication constraints equal their defining sums on every binary assignment.",
+                note="<= 5 agents, <= 6 computations; exhaustive over departed subsets and binary assignments inside each generated instance."),
 }
